@@ -1,0 +1,1 @@
+//! access rig (verification scaffolding, cfg(rustdds_verif))
